@@ -41,8 +41,15 @@ class Struct(HTMLParser):
         self.styles = []
         self.stack = []
         self.counts = {}
+        self.alltext = [""]        # every run of character data between two tags, in document order
+        self.keyed = [False]       # ... and whether it belongs to one of the keyed slot elements
+
+    def _cut(self):
+        self.alltext.append("")
+        self.keyed.append(False)
 
     def handle_starttag(self, tag, attrs):
+        self._cut()
         self.seq.append(("s", tag, tuple(sorted(k for k, _ in attrs))))
         a = dict(attrs)
         cls = a.get("class") or ""
@@ -60,6 +67,7 @@ class Struct(HTMLParser):
         self.seq.append(("se", tag, tuple(sorted(k for k, _ in attrs))))
 
     def handle_endtag(self, tag):
+        self._cut()
         self.seq.append(("e", tag))
         if self.stack:
             self.stack.pop()
@@ -74,9 +82,11 @@ class Struct(HTMLParser):
         self.seq.append(("pi",))
 
     def handle_data(self, data):
+        self.alltext[-1] += data
         for k in reversed(self.stack):
             if k is not None:
                 self.texts[k] += data
+                self.keyed[-1] = True
                 break
 
 
@@ -196,6 +206,18 @@ def observe(job):
                     txt = ["<displaced>"] + list(got[:40])
             evs.append({"gen": gen, "slot": slot + "@" + where, "ctx": ctx, "sym": list(sym), "raw": to_model_chars(text) if wrap else [], "tags": tags, "benignTags": btags,
                         "text": txt, "raised": "", "given": text})
+        # wherever ELSE the document shows the slot's text (notes, captions, tooltips' text ...): every run of character data that
+        # carries the marker in the benign rendering must carry the text itself, verbatim, in this one
+        if len(p.alltext) == len(ben.alltext):
+            for j, (bt, ht) in enumerate(zip(ben.alltext, p.alltext)):
+                if MARK in bt:
+                    pre, post = bt.split(MARK, 1)
+                    if ht.startswith(pre) and ht.endswith(post) and len(ht) >= len(pre) + len(post):
+                        txt = to_model_chars(ht[len(pre):len(ht) - len(post)] if post else ht[len(pre):])
+                    else:
+                        txt = ["<displaced>"] + list(ht[:40])
+                    evs.append({"gen": gen, "slot": slot + "@text%d" % j, "ctx": "content", "sym": list(sym), "raw": to_model_chars(text) if wrap else [],
+                                "tags": tags, "benignTags": btags, "text": txt, "raised": "", "given": text})
         return evs
     finally:
         shutil.rmtree(wd, ignore_errors=True)
@@ -243,6 +265,12 @@ def e2e(rnd, n):
                     esc = pay.replace("\\", "\\\\").replace("\"", "\\\"").replace("\n", " ")
                     open("in.css", "w").write("@supports (content: \"%s\") { .n{color:#777777;background-color:#ffffff} }\n"
                                                "@media screen and (min-width: 1px) { .m[title=\"%s\"]{color:#888888} }\n" % (esc, esc))
+                    clilib.run_cli(os.path.join(wd, "in.css"), [], wd)
+                    gen, rep = "cli", "cm_colors_report.html"
+                elif route == 0 and k % 8 == 0:      # CLI: the same hostile selector twice in one file (top level and inside @media)
+                    sel = ".a[title=\"%s\"]" % pay.replace("\\", "\\\\").replace("\"", "\\\"").replace("\n", " ")
+                    open("in.css", "w").write(sel + "{color:#777777;background-color:#ffffff}\n@media print { " + sel + "{color:#888888;background-color:#ffffff} }\n"
+                                              + sel + "{color:#7a7a7a}\n")
                     clilib.run_cli(os.path.join(wd, "in.css"), [], wd)
                     gen, rep = "cli", "cm_colors_report.html"
                 elif route == 0:      # CLI: attribute selector string carrying the payload
